@@ -15,7 +15,9 @@ and of one synthetic in-memory dictionary.  From the expansion this module gener
 
 Signatures: valid_rejected|<instance class>[|top/nested], valid_raised|...,
 fault_accepted|<fault class>|<top/nested>, fault_wrong_exception|<fault class>|<top/nested>,
-order_dependence|verdict_differs, order_dependence|dictionary_rejected_in_this_order.
+order_dependence|verdict_differs, order_dependence|dictionary_rejected_in_this_order,
+history_dependence|<fault class> / history_dependence|valid:<instance class> (verdict of a case
+changes with what the same FIXSchema instance validated before).
 'top' = message body / header, 'nested' = inside a repeating group item (any depth).
 
 Oracle is three-valued: only what the property sentence states is demanded, see
@@ -1218,6 +1220,13 @@ def run(ctx):
         "not-in-message / other-container tag; header: remove required field, bad value); then the verdicts of a "
         "corpus are recomputed under permutations of <components> (all 720 / 6 for the synthetic / toy dictionary, "
         "reversal + dependencies-first + dependencies-last + rotations + adjacent transpositions for FIX44.xml). "
+        "Foreign tags are also drawn from the members of header / trailer groups (HopCompID ...) and from tags the "
+        "dictionary allows only inside groups. Validation history: per dictionary a corpus of small cases that put "
+        "the same literal value into different fields / datatypes (minimal instances, all their faults, header "
+        "faults, canonical / special / enumerated values at the first position of every field) is validated by "
+        "ONE fresh FIXSchema in four orders (forward, reversed, valid first, faults first) and the four verdicts "
+        "of every case must agree; (valid, fault) pairs sharing a value (EndSeqNo(16)=0 first) are validated A,B "
+        "and B,A on fresh instances and compared with the fresh-instance verdict. "
         "Faults of a base instance that does not validate are not judged. non-trivial = instance containing at "
         "least one repeating group")
     items = []
